@@ -78,7 +78,9 @@ RETRYABLE_STATUS = (429, 502, 503, 504)
 BASE = ["ok", "ctimeout", "cerror", "api429", "api502", "api503", "api504", "api401", "api403", "api404", "transport"]
 BULK_ONLY = ["bulk429", "bulk503", "bulk400", "bulk429+400"]
 EXT = ["ok-false", "ok-none", "tls", "api500-nobody", "api503-nobody", "api400", "api405", "api408", "api409", "api413", "api500", "api501", "ser", "sniff", "transport-errors", "ctimeout-errors", "unsupported-product"]
-EXT_BULK = ["bulk502", "bulk504", "bulk429+503", "bulk400+429", "bulk409", "bulk500", "bulk-nostatus", "bulk429x3"]
+EXT_BULK = ["bulk502", "bulk504", "bulk429+503", "bulk400+429", "bulk409", "bulk500", "bulk-nostatus", "bulk429x3",
+            # many failed items (a chunk has up to 5000): the non-retryable one may sit anywhere
+            "bulk429x10+400", "bulk429x12+400", "bulk503x40+409+503x3", "bulk429x5000", "bulk429x2500+500"]
 
 _NODE_CFG = elastic_transport.NodeConfig("https", "metrics.example.org", 9243)
 ITEM_ERRORS = {
@@ -124,11 +126,13 @@ def bulk_error(spec):
     """spec e.g. '429', '429+400', '429x3', 'nostatus' -> BulkIndexError as helpers.bulk raises it (only the failed items are listed)."""
     if spec == "nostatus":
         items = [bulk_item(400, 0, with_status=False)]
-    elif "x" in spec:
-        s, k = spec.split("x")
-        items = [bulk_item(int(s), i) for i in range(int(k))]
     else:
-        items = [bulk_item(int(s), i) for i, s in enumerate(spec.split("+"))]
+        # '+'-joined segments, each a status or <status>x<count>: '429x12+400' = twelve rejected items followed by one malformed document
+        items = []
+        for seg in spec.split("+"):
+            s, _, k = seg.partition("x")
+            for _ in range(int(k or 1)):
+                items.append(bulk_item(int(s), len(items)))
     return elasticsearch.helpers.BulkIndexError(f"{len(items)} document(s) failed to index.", items)
 
 
